@@ -283,6 +283,7 @@ def _ens_cases(tier):
     def fix(c):
         c = dict(c); c['mode'] = 'step'
         if c['map'] == 'forked': c['map'] = 'serial'
+        if c['as'] == 'bare': c['as'] = 'class'       # (bare configured instances: known finding F57, recorded under C09)
         return c
     return c09.ens_cases(tier).map(fix)
 
